@@ -35,36 +35,87 @@ func checkC20(c *fw.Ctx) {
 	// 2. mask arithmetic
 	if fn := mustFunc(c, "2 caveat-mask", "tokens.verifyCaveats"); fn != nil {
 		type bit struct {
-			val   int64
-			conds string
-			pos   string
+			val  int64
+			cond fw.DNF
+			pos  string
 		}
 		var bits []bit
+		// contributions to the mask: `mask |= const` under a condition, or `mask |= helper(...)`
+		// where the helper returns constants under conditions (entered, parameters substituted)
 		for _, b := range fn.Blocks {
 			for _, ins := range b.Instrs {
 				bo, ok := ins.(*ssa.BinOp)
 				if !ok || bo.Op != token.OR {
 					continue
 				}
-				if n, isC := fw.ConstInt(bo.Y); isC {
-					bits = append(bits, bit{n, condsOf(b), c.P.Pos(fw.InstrPos(bo))})
+				here, okC := fw.CondAt(nil, b)
+				if !okC {
+					c.Undecided("2 caveat-mask", "mask contributions", "path condition too large")
+					continue
+				}
+				for _, opnd := range []ssa.Value{bo.X, bo.Y} {
+					if n, isC := fw.ConstInt(opnd); isC {
+						bits = append(bits, bit{n, here, c.P.Pos(fw.InstrPos(bo))})
+						continue
+					}
+					call, isCall := opnd.(*ssa.Call)
+					if !isCall {
+						continue
+					}
+					callee := fw.Followable(call, nil)
+					if callee == nil {
+						continue
+					}
+					fr := &fw.Frame{Site: call, Callee: callee}
+					fw.WithSubst(fr.Subst(), func() {
+						t, err := fw.ExtractTable(callee, 0)
+						if err != nil {
+							c.Undecided("2 caveat-mask", "mask contributions", err.Error())
+							return
+						}
+						for _, r := range t.Rows {
+							n, isC := fw.ConstInt(r.Val)
+							if !isC {
+								c.Undecided("2 caveat-mask", "mask contributions", "the helper "+fw.FuncName(callee)+" returns a non-constant mask "+r.Outcome)
+								continue
+							}
+							if n == 0 {
+								continue
+							}
+							bits = append(bits, bit{n, andAll(here, r.Cond), c.P.Pos(fw.InstrPos(r.Ret))})
+						}
+					})
 				}
 			}
 		}
-		classes := map[string]func(conds string) bool{
-			"generation caveat": func(s string) bool { return strings.Contains(s, `== "gen = 1")`) && !strings.Contains(s, `!(*param:caveats`) },
-			"user caveat": func(s string) bool {
-				return strings.Contains(s, `strings.HasPrefix(`) && strings.Contains(s, `"user_id = ")`) && strings.Contains(s, "== param:userID)")
+		// a class holds for a contribution when every way of reaching it establishes the class's atoms
+		every := func(d fw.DNF, want ...lit) bool {
+			if len(d) == 0 {
+				return false
+			}
+			for _, term := range d {
+				for _, w := range want {
+					if !termHas(term, w) {
+						return false
+					}
+				}
+			}
+			return true
+		}
+		classes := map[string]func(d fw.DNF) bool{
+			"generation caveat": func(d fw.DNF) bool { return every(d, lit{[]string{`== "gen = 1")`}, true}) },
+			"user caveat": func(d fw.DNF) bool {
+				return every(d, lit{[]string{"strings.HasPrefix(", `"user_id = ")`}, true}, lit{[]string{"[10:]", "param:userID"}, true})
 			},
-			"expiry caveat": func(s string) bool {
-				return strings.Contains(s, `"time < ")`) && strings.Contains(s, "gmsl/tokens.verifyExpiry(") && !strings.Contains(s, "!gmsl/tokens.verifyExpiry(")
+			"expiry caveat": func(d fw.DNF) bool {
+				return every(d, lit{[]string{"strings.HasPrefix(", `"time < ")`}, true}, lit{[]string{"gmsl/tokens.verifyExpiry("}, true})
 			},
 		}
 		required := int64(0)
 		for _, name := range []string{"generation caveat", "user caveat", "expiry caveat"} {
 			var found []bit
 			for _, b := range bits {
-				if classes[name](b.conds) {
+				if classes[name](b.cond) {
 					found = append(found, b)
 				}
 			}
@@ -79,7 +130,7 @@ func checkC20(c *fw.Ctx) {
 		for _, b := range bits {
 			known := false
 			for _, f := range classes {
-				if f(b.conds) {
+				if f(b.cond) {
 					known = true
 				}
 			}
@@ -199,4 +250,34 @@ func checkC20(c *fw.Ctx) {
 			}
 		}
 	}
+}
+
+
+// andAll is the conjunction of two conditions.
+func andAll(a, b fw.DNF) fw.DNF {
+	var out fw.DNF
+	for _, x := range a {
+		for _, y := range b {
+			t := append(fw.Term{}, x...)
+			ok := true
+			for _, l := range y {
+				dup := false
+				for _, m := range t {
+					if m.Atom == l.Atom {
+						dup = true
+						if m.Pos != l.Pos {
+							ok = false
+						}
+					}
+				}
+				if !dup {
+					t = append(t, l)
+				}
+			}
+			if ok {
+				out = append(out, t)
+			}
+		}
+	}
+	return out
 }
